@@ -23,6 +23,8 @@ func init() { register("C09", "model_checking", checkC09) }
 var c09Sym = map[string]string{"dq": `"`, "sq": `'`, "bs": `\`, "hash": "#", "lf": "\n", "cr": "\r", "tab": "\t", "lparen": "(",
 	"n": "n", "u": "u", "x": "x", "a": "a", "eacute": "é", "emoji": "😀", "nul": "\x00", "del": "\x7f", "xff": "\xff", "repl": "\ufffd"}
 var c09SymOrder = []string{"dq", "sq", "bs", "hash", "lf", "cr", "tab", "lparen", "n", "u", "x", "a", "eacute", "emoji", "nul", "del", "xff", "repl"}
+var c09Toks = []string{"a", "#D", "_h", "1", `"s"`, "{", "}", "[", "]", "(", ")", ":", ",", "&", "|", "*", "?", "!", "=",
+	"...", "\n", "// c\n", "for", "if", "let", "in", "import", "package", ".", "<", "=~", "-", `\(`, "'b'", "1.5e3", "_|_"}
 var c09TChars = []string{`"`, `\`, "n", "a", "#", "\n"}
 
 func c09Form(rec tlaval.Rec) (literal.Form, string) {
@@ -289,8 +291,7 @@ func checkC09(r *kit.Run) {
 		r.Fatal("CueTokens model: %v\n%s", err, out)
 	}
 	r.AddTLC("CueTokens", res3)
-	toks := []string{"a", "#D", "_h", "1", `"s"`, "{", "}", "[", "]", "(", ")", ":", ",", "&", "|", "*", "?", "!", "=",
-		"...", "\n", "// c\n", "for", "if", "let", "in", "import", "package", ".", "<", "=~", "-", `\(`, "'b'", "1.5e3", "_|_"}
+	toks := c09Toks
 	seps := []string{" ", "", "\n", "\t ", " // x\n"}
 	var soups int64
 	rngs := make([]*rand.Rand, 16)
